@@ -483,7 +483,7 @@ class C15(Check):
     }
     required_probes = [
         "in_place_kernel_launch", "launch_on_strided_view", "call_with_overlapping_array_arguments", "more_threads_than_outer_iterations", "policy_permuted", "policy_static", "policy_dynamic",
-        "executor_fidelity_checked_against_compiled_kernel", "thread_differential_ir", "thread_differential_compiled", "repeated_identical_requests", "target_gen", "target_ns2d", "target_ns3d", "target_passive", "target_solver", "target_interaction", "spreading_permuted_prange",
+        "executor_fidelity_checked_against_compiled_kernel", "thread_differential_ir", "thread_differential_compiled", "repeated_identical_requests", "marker_by_marker_reference", "target_gen", "target_ns2d", "target_ns3d", "target_passive", "target_solver", "target_interaction", "spreading_permuted_prange",
     ]
     tiers = {
         "quick": {"runs": 800, "batch": 6, "timeout": 900},
@@ -536,7 +536,7 @@ class C15(Check):
             p.update({"dim": dim, "shape": list(rng.choice(SHAPES[dim])), "vector": dim == 3 and rng.random() < 0.5, "view": rng.choice(["plain", "component", "inplace"])})
         else:
             dim = rng.choice([2, 3])
-            p.update({"dim": dim, "shape": list(rng.choice(SIM_SHAPES[dim])), "reset": rng.random() < 0.5, "n_markers": rng.choice([3, 8, 8, 2500, 4100]), "evals": 2, "repeat_identical": rng.choice([0, 30, 60])})
+            p.update({"dim": dim, "shape": list(rng.choice(SIM_SHAPES[dim])), "reset": rng.random() < 0.5, "n_markers": rng.choice([3, 8, 8, 24, 2500, 4100]), "evals": 2, "repeat_identical": rng.choice([0, 30, 60])})
             if p["n_markers"] > 100:
                 p["repeat_identical"] = min(p["repeat_identical"], 30)
         if target != "gen":
@@ -807,6 +807,7 @@ class C15(Check):
         _prange_state["mode"] = "identity"
         body()
         ref = forcing.copy()
+        self._marker_order_reference(body, before, ref, res)
         for k, v in pub.items():
             getattr(body, k)[...] = v
         forcing[...] = before
@@ -825,6 +826,29 @@ class C15(Check):
                 f"Lagrangian->Eulerian spreading gives a bitwise different Eulerian field when its parallel-range marker loop runs in another order (max dev {float(np.max(np.abs(forcing.astype(np.float64) - ref.astype(np.float64)))):.3e}): the accumulation is not executed in a fixed serial marker order",
             )
             forcing[...] = ref
+
+    def _marker_order_reference(self, body, before, got, res):
+        """Fixed serial marker order, decided with the implementation's own spreading kernel: spreading
+        the markers one at a time in index order (all other marker forces masked to zero, which adds
+        exact zeros) must reproduce the batch call bit for bit."""
+        n = body.lag_grid_forcing_field.shape[1]
+        if n > 64:
+            return
+        kernel = body.eul_lag_grid_communicator.lagrangian_to_eulerian_grid_interpolation_kernel
+        reset = getattr(body, "compute_interaction_forcing", None) == getattr(body, "compute_interaction_force_on_eul_and_lag_grid_with_eul_grid_forcing_reset", object())
+        ref = np.zeros_like(before) if reset else before.copy()
+        F = body.lag_grid_forcing_field
+        for i in range(n):
+            masked = np.zeros_like(F)
+            masked[:, i] = F[:, i]
+            kernel(eul_grid_field=ref, lag_grid_field=masked, interp_weights=body.interp_weights, nearest_eul_grid_index_to_lag_grid=body.nearest_eul_grid_index_to_lag_grid)
+        res.probe("marker_by_marker_reference")
+        if not np.array_equal(ref, got):
+            res.violation(
+                "spreading_order",
+                {"site": "marker_by_marker_reference", "dim": body.grid_dim},
+                f"one interaction call spreads a bitwise different Eulerian field than spreading its {n} markers one at a time in index order (max dev {float(np.max(np.abs(ref.astype(np.float64) - got.astype(np.float64)))):.3e}): accumulation is not in fixed serial marker order",
+            )
 
     def _t_interaction(self, p, res, rt):
         dim = p["dim"]
